@@ -74,6 +74,10 @@ F = {
    what="loom's own assertion `assert_ne!(mo_i, mo_j)` in match_load_to_stores / match_rmw_to_stores (marked 'TODO: this sometimes fails' in the source) fires on a valid program: two stores of one atomic end up with equal modification-order clocks; the model run fails although no execution of the program fails (rt/atomic.rs)",
    entries=[(p, "badverdict", "cfg x=1 | T0: spawn 1; spawn 2; for 0 4 ar; ld 0 sc; join 1; join 2 | T1: st 0 1 sc; ld 0 sc | T2: st 0 2 rel; fupd 0 add:1 rel acq",
              "internal:10", o) for p, o in (("C03", "rc11-doc"), ("C02", "rc11-strong"), ("C01", None))]),
+ "F27": dict(cls="seqcst-fence-order-as-hb",
+   what="a data race ordered only by the total order of SeqCst fences is never reported: every fence(SeqCst) joins and updates one shared clock (seq_cst_causality), so a later SeqCst fence acquires everything that happened before any earlier one, although in C11/RC11 the order of SeqCst fences is not part of happens-before (a relay through relaxed accesses of a third thread publishes nothing); fences are also not scheduling points, so the opposite order of two fences is not explored either (rt/atomic.rs fence_seqcst, rt/thread.rs Set::seq_cst_fence)",
+   entries=[("C04", "missed_failure", "cfg x=2 c=1 | T0: spawn 1; spawn 2; cwr 0 5; fence sc; st 0 1 rlx; join 1; join 2 | T1: ld 0 rlx; ifeq 1 v:1 1; st 1 1 rlx | T2: ld 1 rlx; fence sc; ifeq 2 v:1 1; crd 0",
+             "causality", "rc11-strong")]),
  "F11": dict(cls="unstarted-closure-dropped-outside",
    what="the process aborts instead of unwinding to the caller of loom::model when an iteration fails while a spawned thread that has not started yet still owns a loom handle in its closure (`let a2 = a.clone(); thread::spawn(move || use(a2)); assert!(false)`): the closure is dropped with the scheduler's coroutine, outside the execution context (rt/scheduler.rs)",
    entries=[("C06", "abort", "cfg unwind=1 | T0: anew 0; aclone 0 1; spawnown 1 1; panic | T1: adrop 1", "abort")]),
